@@ -483,8 +483,8 @@ func init() {
 					Args: []int64{int64(t[0]), int64(t[1]), int64(t[2]), 1, 1, 1, 1}, Cfg: parCfgShrinkReq(2)})
 			}
 			is = append(is, resizePar("C03/Map", false, 0, []int{0, 1, 7}, 1, 1, 2)...) // resize-first grow||Compute/pre1: > 60 min (queries time out, splitting), not registered
-			is = append(is, resizeParO("C03/Map", false, 0, []int{0, 1, 5, 7, 8}, 1, 1, 2, 1)...)
-			is = append(is, resizePar("C03/Map", false, 1, []int{1}, 2, 0, 2)...)
+			is = append(is, resizeParO("C03/Map", false, 0, []int{0, 1, 7, 8}, 1, 1, 2, 1)...) // op-first grow||Compute/pre1: > 40 min, not registered
+			// Map shrink||Store (2->1 buckets, empty table): > 40 min, not registered (MapOf's runs in C08/C13)
 			return is
 		},
 	})
